@@ -233,6 +233,19 @@ def _policy_table(ctx, rr, rid, f, old_names, new_names, valuation_key="overwrit
             if not delegated:
                 raise AnalysisError("%s: with overwrite=%s no merge of old and new data was found (neither inline nor in a helper receiving both datasets and the policy)" % (f.name, label))
             continue
+        # a path on which, with existing data present, the kept dataset is produced without combining old and new (a fast path
+        # that copies one side): whether its guard implies "nothing of the other side is lost" is not something this analysis
+        # can evaluate -- an unguarded bypass was already a missing production above
+        targets = {n.ast.targets[0].id for n, c in prods if isinstance(n.ast, ast.Assign) and len(n.ast.targets) == 1 and isinstance(n.ast.targets[0], ast.Name)}
+        prod_ids = {n.id for n, c in prods}
+        for n in g.nodes:
+            if n.id in fl.visited and n.id not in prod_ids and n.kind == "stmt" and isinstance(n.ast, ast.Assign) and len(n.ast.targets) == 1 \
+                    and isinstance(n.ast.targets[0], ast.Name) and n.ast.targets[0].id in targets and not isinstance(n.ast.value, ast.Constant):
+                used = {x.id for x in ast.walk(n.ast.value) if isinstance(x, ast.Name)} | {norm(x) for x in ast.walk(n.ast.value) if isinstance(x, ast.Attribute)}
+                if n.ast.targets[0].id in used:
+                    continue      # a transformation of the combined dataset itself
+                raise AnalysisError("%s: with overwrite=%s and existing data present a path produces `%s = %s` without combining old and new data; whether its guard makes that equivalent is not analysed" % (
+                    f.name, label, n.ast.targets[0].id, norm(n.ast.value)[:60]))
         for n, c in prods:
             txt = norm(c)
             recv = norm(c.func.value) if isinstance(c.func, ast.Attribute) else None
